@@ -49,7 +49,7 @@ def failing_op(rng, dv):
     val = rng.choice(E.VALUE_POOL)
     tree = A.merge(dv.target.bindings) if dv.target is not None else A.TNode("set")
     paths = [(p, nd) for p, nd in E.all_paths(tree) if not any(s.startswith("\x00dyn:") for s in p)]
-    leaves = [p for p, nd in paths if nd.kind == "leaf"]
+    leaves = [p for p, nd in paths if nd.kind == "leaf" and not (nd.tokens and nd.tokens[0][0] == "inherit")]
     attr_sets = [p for p, nd in paths if nd.kind == "set" and nd.via_attrpath and not nd.explicit and len(p) == 1]
     mixed_sets = [p for p, nd in paths if nd.kind == "set" and nd.via_attrpath and nd.explicit and len(p) == 1]
     inherited = [p for p, nd in paths if nd.kind == "leaf" and nd.tokens and nd.tokens[0][0] == "inherit"]
@@ -196,6 +196,20 @@ def run_shard(spec):
                     elif rs.exc_type is not None:
                         longlive = shadow = None
                 else:
+                    if total_failures:
+                        # `longlive` refuses after an earlier rejection: would a document that never
+                        # saw the rejected edits accept?  (a fresh parse of the same text is asked
+                        # first so that the shadow only receives operations it can take)
+                        probe = E.fresh_apply(shadow.text, op)
+                        if probe.exc_type is None:
+                            rs = shadow.apply(op)
+                            if rs.exc_type is None:
+                                k = dict(base)
+                                k["effect"] = "history-with-rejected-edits-diverges"
+                                k["shadow"] = "ok"
+                                k["live"] = rl.exc_type
+                                keys.append(k)
+                            longlive = shadow = None
                     total_failures += 1
             if twin is not None:
                 rt = twin.apply(op)
@@ -229,7 +243,7 @@ def run_shard(spec):
                                   "stdout": "empty" if stdout == "" else "non-empty"})
                         keys.append(k)
                 failures_since_sync += 1
-                if not followups and rng.random() < 0.35:
+                if not followups and rng.random() < 0.5:
                     try:
                         depth_, segs_ = M.parse_npath(op.npath)
                         at_ = "@" * depth_
@@ -238,8 +252,9 @@ def run_shard(spec):
                             followups = [E.Op("rm", at_ + E.spell(tuple(segs_[:-1])), "", "followup-rm-parent"),
                                          E.Op("set", at_ + E.spell(tuple(segs_[:1])), v_, "followup-set-root"),
                                          E.Op("set", at_ + E.spell(tuple(segs_[:1]) + ("q",)), v_, "followup-set-under-root")]
-                            rng.shuffle(followups)
-                            followups = followups[: rng.choice([1, 2, 3])]
+                            if rng.random() < 0.3:
+                                rng.shuffle(followups)
+                                followups = followups[: rng.choice([1, 2, 3])]
                         else:
                             followups = [E.Op("set", at_ + E.spell(tuple(segs_)), v_, "followup-set-same"),
                                          E.Op("rm", at_ + E.spell(tuple(segs_)), "", "followup-rm-same")][: rng.choice([1, 2])]
